@@ -227,10 +227,40 @@ func genCase(r *vrun.Run, idx int) caseSpec {
 		c.Entries = append(c.Entries, zipgen.Entry{Name: "sub/inner.zip", Nested: inner, Declared: -1})
 	}
 	// nested archives whose OWN name is hostile: the stem of the name becomes the extraction directory in recursive mode
-	if rng.IntN(6) == 0 {
+	if rng.IntN(4) == 0 {
 		nn := []string{"...zip", "sub/...zip", "a/b/...zip", "...jar", "..zip", ". .zip", "..../...zip", ".zip", "x/.zip"}[rng.IntN(9)]
+		if rng.IntN(3) != 0 {
+			// <directory><dots><inner extensions><archive extension>: what is left once extensions are dropped must not be a parent reference
+			exts := filesystem.ZipFileExtensions
+			nn = []string{"", "", "sub/", "a/b/"}[rng.IntN(4)] + []string{"..", "..", "...", ".", "....", ". ."}[rng.IntN(6)] +
+				[]string{"", ".tar", ".tar", ".tar.tar", ".x", ".zip"}[rng.IntN(6)] + exts[rng.IntN(len(exts))]
+		}
 		c.Names = append(c.Names, nameSpec{Name: nn, Class: "nested-archive-name:" + filepath.Base(nn), Hostile: true})
 		c.Entries = append(c.Entries, zipgen.Entry{Name: nn, Nested: []zipgen.Entry{zipgen.E("payload.txt", data()), zipgen.E("d/payload2.txt", data())}, Declared: -1})
+	}
+	// entries stored as symbolic links (mode bit in the header, target as content): whatever is made of them, later
+	// entries whose names go through them must stay inside
+	if rng.IntN(8) == 0 {
+		base := fmt.Sprintf("via-link-%d", rng.IntN(100))
+		type le struct{ name, target string }
+		chains := [][]le{
+			{{"hop", "."}, {"hop/up", ".."}},
+			{{"up", ".."}},
+			{{"d/up", "../.."}},
+			{{"abs", "/"}},
+			{{"a", "b"}, {"b", ".."}},
+			{{"hop", "."}, {"hop/hop2", "."}, {"hop/hop2/up", "../.."}},
+		}
+		ch := chains[rng.IntN(len(chains))]
+		for _, l := range ch {
+			c.Names = append(c.Names, nameSpec{Name: l.name, Class: "link-entry->" + l.target, Hostile: true})
+			c.Entries = append(c.Entries, zipgen.Entry{Name: l.name, Link: l.target, Declared: -1})
+		}
+		last := ch[len(ch)-1].name
+		for _, n := range []string{last + "/" + base, last + "/canary-c02/" + base} {
+			c.Names = append(c.Names, nameSpec{Name: n, Class: "through-link-entries", Hostile: true})
+			c.Entries = append(c.Entries, zipgen.E(n, data()))
+		}
 	}
 	return c
 }
